@@ -156,6 +156,8 @@ pub fn run(ctx: &Ctx) -> i32 {
     if ctx.quick() {
         explore(ctx, "EL layered T=2 values {0,1,2,4}", Layered { slots: el_slots(2, &[0, 100, 200, 400], false), bases: alpha::bases(false) }, C12, shared.clone());
         explore(ctx, "EL layered T=1 values {0,1,2,4} + zero-valued sources", Layered { slots: el_slots(1, &[0, 100, 200, 400], true), bases: alpha::bases(false) }, C12, shared.clone());
+        explore(ctx, "EL layered T=3 values {0,1,3}", Layered { slots: el_slots(3, &[0, 100, 300], false), bases: alpha::bases(false) }, C12, shared.clone());
+        explore(ctx, "EL layered T=2 decimal {0,0.01,0.07,33.33}", Layered { slots: el_slots(2, &[0, 1, 7, 3333], false), bases: alpha::bases(false) }, C12, shared.clone());
     } else {
         explore(ctx, "EL layered T=2 values {0,1,2,4} + zero-valued sources", Layered { slots: el_slots(2, &[0, 100, 200, 400], true), bases: alpha::bases(false) }, C12, shared.clone());
         explore(ctx, "EL layered T=3 values {0,1,3}", Layered { slots: el_slots(3, &[0, 100, 300], false), bases: alpha::bases(false) }, C12, shared.clone());
